@@ -12,6 +12,7 @@ import (
 	"crypto/rand"
 	"crypto/rsa"
 	"net/url"
+	"os"
 	"sort"
 	"strings"
 	"sync"
@@ -45,7 +46,7 @@ type Cfg struct {
 	LDev        int      `json:"l_dev"`
 	LPar        int      `json:"l_par"`
 	LIDT        int      `json:"l_idt"`
-	Store       string   `json:"store"`         // "mem" (reference store) | "contract" | "tx"
+	Store       string   `json:"store"`         // "mem" (reference store) | "contract" | "tx" | "copy"
 	Key         string   `json:"key,omitempty"` // ID-token signing key: "" = RSA; "ec256", "jwk_es384", "jwk_es512", "jwk_rs384"
 	// the application's session type does not remember the expiry of access tokens: the strategy must fall back to
 	// requested_at + configured lifetime, with the same outcome (lifetime source "server default" of C07). Authorization
@@ -276,6 +277,9 @@ func NewWorld(cfg Cfg) *World {
 		w.Config.RefreshTokenScopes = []string{}
 	}
 	w.Rec = NewRecStore(w.Mem)
+	if cfg.Store == "copy" || os.Getenv("VERIF_FORCE_COPY_STORE") != "" {
+		w.Rec.Copy = true
+	}
 	switch cfg.Store {
 	case "contract":
 		w.Store = &ContractDeviceStore{RecStore: w.Rec, invalidated: map[string]fosite.DeviceRequester{}}
